@@ -159,6 +159,8 @@ def run(ctx):
         mon = HedgeMonitor(ctx, fl)
         mon.install(probe)
         H = {h: getattr(fl, c)() for h, c in CLASSES.items()}
+        if ctx.seed % 2 or ctx.shard % 2:
+            H = {h: fl.settings.factory_manager.hedge.construct(h) for h in CLASSES}  # the instances the rule parser uses
         nb = [0.5]
         for _ in range(3):
             nb = [math.nextafter(nb[0], 0.0)] + nb + [math.nextafter(nb[-1], 1.0)]
